@@ -332,10 +332,6 @@ MATCHERS = {
     and TYPE_CONFUSION.search(f.extra.get("msg", "")) is not None,
     "F22-settings-internal-slot": lambda f: f.kind == "internal-exception" and bool(sh(f).get("odd_settings"))
     and TYPE_CONFUSION.search(f.extra.get("msg", "")) is not None,
-    "F44-table-list-unlisted-select": lambda f: crash(f, {"KeyError"}, r"^xls2json\.py:workbook_to_json$")
-    and sh(f).get("table_list_unlisted"),
-    "F13-osm-unlisted": lambda f: crash(f, {"TypeError"}, r"^xls2json\.py:workbook_to_json$") and sh(f).get("osm_unlisted")
-    and "NoneType" in f.extra.get("msg", ""),
     "F30-deep-nesting": lambda f: f.kind == "internal-exception" and f.extra.get("exc") == "RecursionError"
     and sh(f).get("depth", 0) > 100,
     "F34-survey-internal-column": lambda f: f.kind == "internal-exception" and bool(sh(f).get("internal_cols"))
@@ -651,7 +647,78 @@ def rowloop_forms(rng):
                 yield kind, odd, f
 
 
+def every_kind_prefix(langs):
+    """a valid block containing one row of every kind the row loop distinguishes (state that the loop carries
+    from row to row — parameter lists, table-list flag, stack, question names — is exercised before the mutated row)"""
+    def lab(row, text):
+        if langs:
+            for lg in langs:
+                row[f"label::{lg}"] = text
+        else:
+            row["label"] = text
+        return row
+    rows = [
+        lab({"type": "select_one_from_file ek_places.csv", "name": "ek_sff", "parameters": "value=code label=title"}, "F"),
+        lab({"type": "select_multiple_from_file ek_towns.xml", "name": "ek_smf"}, "F"),
+        lab({"type": "begin group", "name": "ek_tl", "appearance": "table-list"}, "T"),
+        lab({"type": "select_one ek_list", "name": "ek_t1"}, "A"),
+        lab({"type": "select_one ek_list", "name": "ek_t2"}, "B"),
+        {"type": "end group"},
+        lab({"type": "begin repeat", "name": "ek_rep", "repeat_count": "2"}, "R"),
+        lab({"type": "text", "name": "ek_src"}, "Q"),
+        {"type": "end repeat"},
+        lab({"type": "select_one ${ek_src}", "name": "ek_dyn"}, "D"),
+        lab({"type": "select_one ek_list or_other", "name": "ek_oo"}, "O"),
+        lab({"type": "select_multiple ek_list", "name": "ek_rand", "parameters": "randomize=true seed=3"}, "R"),
+        lab({"type": "rank ek_list", "name": "ek_rank"}, "K"),
+        lab({"type": "range", "name": "ek_range", "parameters": "start=1 end=5 step=1"}, "G"),
+        lab({"type": "image", "name": "ek_img", "parameters": "max-pixels=100"}, "I"),
+        lab({"type": "audio", "name": "ek_aud", "parameters": "quality=low"}, "A"),
+        lab({"type": "geopoint", "name": "ek_geo", "parameters": "capture-accuracy=5"}, "P"),
+        lab({"type": "text", "name": "ek_txt", "parameters": "rows=3"}, "T"),
+        {"type": "calculate", "name": "ek_calc", "calculation": "1 + 1"},
+        {"type": "background-geopoint", "name": "ek_bg", "trigger": "${ek_txt}"},
+        {"type": "xml-external", "name": "ek_ext"},
+        {"type": "audit", "parameters": "track-changes=true"},
+        lab({"type": "note", "name": "ek_note"}, "N"),
+    ]
+    ch = []
+    for nm in ("e1", "e2"):
+        ch.append(lab({"list_name": "ek_list", "name": nm}, nm.upper()))
+    return rows, ch
+
+
+NO_PREFIX = {"empty_survey", "missing_survey", "missing_type_col", "no_choices_sheet", "missing_choice_name_col",
+             "choice_no_name"}  # mutations that remove a sheet / column: the prefix would put it back
+
+
+def form_langs(f):
+    return sorted({k.split("::", 1)[1] for r in f["survey"] + (f.get("choices") or []) for k in r if k.startswith("label::")})
+
+
+def with_prefix(f, expect, langs):
+    """the every-kind block in front of the (mutated) form: survey row numbers of the expectation move down,
+    the block's choices go to the end of the choices sheet (choices row numbers stay)"""
+    rows, ch = every_kind_prefix(langs)
+    g = dict(f)
+    g["survey"] = rows + f["survey"]
+    g["choices"] = (f.get("choices") or []) + ch
+    if expect is not None:
+        e = dict(expect)
+        n = len(rows)
+        if "row" in e and e.get("sheet") != "choices":
+            e["row"] += n
+        if "any" in e:
+            e["any"] = [["row", a[1] + n] if a and a[0] == "row" else a for a in e["any"]]
+        expect = e
+    return g, expect
+
+
 def base_form(rng, big):
+    return base_form0(rng, big)
+
+
+def base_form0(rng, big):
     kw = dict(p_select=rng.choice([0.25, 0.4]), n=(3, 30 if big else 14), types=gen.SIMPLE_TYPES + ["calculate", "calculate", "range"],
               langs=rng.choice([[], [], ["en"], ["en", "fr"]]))
     if rng.random() < 0.3:
@@ -684,9 +751,13 @@ def explore(ctx, factor, bs):
     while done < n_forms and tries < n_forms * 5:
         tries += 1
         form = base_form(rng, big)
-        if impl.run(form)["class"] != "ok":
+        # half of the base forms get, in front, a block with one row of every kind the row loop distinguishes
+        langs = form_langs(form)
+        prefixed = rng.random() < 0.5
+        if impl.run(with_prefix(form, None, langs)[0] if prefixed else form)["class"] != "ok":
             ctx.count("A:base-not-valid")
             continue
+        ctx.count("A:base-with-every-kind-prefix" if prefixed else "A:base-plain")
         done += 1
         for mid, sites, apply in c17_mut.CATALOGUE:
             ss = sites(form)
@@ -697,6 +768,8 @@ def explore(ctx, factor, bs):
                 f2, expect = apply(form, s)
                 if f2 is None or expect is None:
                     continue
+                if prefixed and mid not in NO_PREFIX:
+                    f2, expect = with_prefix(f2, expect, langs)
                 applicable[mid] += 1
                 case = {"stream": "catalogue", "mutation": mid, "site": s, "form": f2, "expect": expect, "via": "dict"}
                 catalogue_case(ctx, case)
